@@ -1,0 +1,10 @@
+//! Read-only verification hooks (feature `verif-hooks`).
+use super::CountMinRow;
+use alloc::vec::Vec;
+
+impl CountMinRow {
+    /// the packed counters
+    pub(crate) fn verif_bytes(&self) -> Vec<u8> {
+        self.0.clone()
+    }
+}
